@@ -33,6 +33,15 @@ ASSUMPTIONS = [
 ]
 
 
+def has_prop(reg, props, prop):
+    """An obligation tagged q also decides property p when q's statement is part of p's (registry.PROP_IMPLIES: e.g. a future that is
+    never resolved - C03 - is also a submission whose outcome is not delivered - C01)."""
+    if prop in props:
+        return True
+    imp = getattr(reg, "PROP_IMPLIES", {})
+    return any(prop in imp.get(q, ()) for q in props)
+
+
 def load_registry():
     sys.path.insert(0, ROOT)
     reg = importlib.import_module("contracts.registry")
@@ -144,13 +153,15 @@ def main(argv):
     for modname in reg.MODULES:
         mod = importlib.import_module(modname)
         for u in getattr(mod, "UNITS", []):
-            if prop in u.props and (not args.units or args.units in u.name):
+            if has_prop(reg, u.props, prop) and (not args.units or args.units in u.name):
                 jobs.append((modname, u.name, timeout_ms, args.tier == "thorough"))
         for i, chk in enumerate(getattr(mod, "STATIC", [])):
-            if prop in chk["props"] and (not args.units or args.units in "static:" + chk["name"]):
+            if has_prop(reg, chk["props"], prop) and (not args.units or args.units in "static:" + chk["name"]):
                 sjobs.append((modname, i))
         replays += getattr(mod, "REPLAYS", [])
         bounded += [b for b in getattr(mod, "BOUNDED", []) if b[0] == prop and not args.units]
+    bpath0 = os.path.join(ROOT, "baseline", "%s.json" % prop)
+    baseline_proved = set(json.load(open(bpath0))) if os.path.exists(bpath0) else set()
     results = []
     if jobs or sjobs:
         with multiprocessing.Pool(min(args.jobs, max(1, len(jobs) + len(sjobs)))) as pool:
@@ -172,7 +183,7 @@ def main(argv):
         if r.get("file"):
             functions[r["func"]] = {"file": r["file"], "lines": [r["line_from"], r["line_to"]], "sha256": r["file_sha256"]}
         for ob in r["obligations"]:
-            if prop not in (ob.get("props") or r["props"]):
+            if not has_prop(reg, ob.get("props") or r["props"], prop):
                 continue
             oid = "%s # %s" % (r["unit"], ob["name"])
             for k_, v_ in (ob.get("second") or {}).items():
@@ -193,7 +204,13 @@ def main(argv):
                     violations.append((oid, ob, r))
             else:
                 n_ob += 1
-                undecided.append((oid, ob))
+                if oid in baseline_proved and not args.units:
+                    # an obligation that was discharged on the committed tree and cannot be discharged on this one, after the budget
+                    # escalation, with the solver's reason attached: reported as a violation without a failing input
+                    ob = dict(ob, lost_proof=True)
+                    violations.append((oid, ob, r))
+                else:
+                    undecided.append((oid, ob))
     # vacuity: zero obligations is a checker error (DESIGN 2.8)
     if not errors and n_ob + len(known) == 0:
         errors.append(("<registry>", "no obligations generated for %s" % prop, ""))
@@ -223,6 +240,9 @@ def main(argv):
         rp = {"property": prop, "obligation": oid, "kind": ob["kind"], "verdict": "refuted", "function": r.get("func"),
               "file": r.get("file"), "lines": [r.get("line_from"), r.get("line_to")], "witness": ob.get("witness"),
               "solver": "z3 sat (counter-model in witness.model; path in witness.decisions)", "replay_script": script}
+        if ob.get("lost_proof"):
+            rp["verdict"] = "proof lost: discharged on the committed tree (baseline/%s.json), not dischargeable on this tree after budget escalation" % prop
+            rp["solver"] = "z3 unknown: %s" % ((ob.get("witness") or {}).get("reason"),)
         suffix = " no-failing-input-found"
         if script:
             rcode, out = run_replay(script)
@@ -276,7 +296,7 @@ def main(argv):
             errors.append(("bounded:" + bname, "bounded check crashed (rc=%s)" % rcode, out[-400:]))
     # vacuity guard per obligation: every obligation discharged on the committed tree (baseline/<prop>.json) must be GENERATED again.
     # One that is not (its clause depends on an event or a branch that is no longer there) cannot be decided on this tree: undecided.
-    all_ids = set(["%s # %s" % (r["unit"], ob["name"]) for r in results for ob in r.get("obligations", []) if prop in (ob.get("props") or r["props"])])
+    all_ids = set(["%s # %s" % (r["unit"], ob["name"]) for r in results for ob in r.get("obligations", []) if has_prop(reg, ob.get("props") or r["props"], prop)])
     bpath = os.path.join(ROOT, "baseline", "%s.json" % prop)
     if args.write_baseline and not args.units:
         os.makedirs(os.path.dirname(bpath), exist_ok=True)
@@ -341,6 +361,6 @@ def main(argv):
         for r in results:
             print("  unit %s: paths=%s wall=%s err=%s" % (r["unit"], r.get("paths"), r.get("wall_s"), r.get("error")))
             for ob in r["obligations"]:
-                if prop in (ob.get("props") or r["props"]):
+                if has_prop(reg, ob.get("props") or r["props"], prop):
                     print("     [%s] %s %s (%d)" % (ob["verdict"], ob["kind"], ob["name"], ob.get("cases", 0)))
     return rc
